@@ -186,3 +186,12 @@ CASES += [
     {"name": "uninitialised test written with not ... is not None", "kind": "twin", "edits": [
         ("quantarhei/core/dfunction.py", "        if self._has_imag is None:\n            self._make_me(x,y)", "        if not (self._has_imag is not None):\n            self._make_me(x,y)", 1)]},
 ]
+
+CASES += [
+    {"name": "places of all functions in one shared list (the repaired defect)", "kind": "mutant", "rule": "C09-K", "edits": [
+        ("quantarhei/qm/corfunctions/cfmatrix.py", "        self.where = [[] for _i in range(nof+1)]", "        self.where = [[]]*(nof+1)", 1)]},
+    {"name": "functions kept in a list of one shared dictionary", "kind": "mutant", "rule": "C09-K", "edits": [
+        ("quantarhei/qm/corfunctions/cfmatrix.py", "        self.cfuncs = [None]*(nof+1)", "        self.cfuncs = [None]*(nof+1)\n        self._notes = [{}]*(nof+1)", 1)]},
+    {"name": "places kept in lists made one by one", "kind": "twin", "edits": [
+        ("quantarhei/qm/corfunctions/cfmatrix.py", "        self.where = [[] for _i in range(nof+1)]", "        self.where = []\n        for _i in range(nof+1):\n            self.where.append([])", 1)]},
+]
